@@ -30,6 +30,14 @@ type ExServer struct {
 	StallAt int
 	// ClaimFingerprints overrides the fingerprints announced in ResPQ.
 	ClaimFingerprints []int64
+	// Stale404 transport error frames (-404, "auth key not found") are sent right
+	// after the first request arrives, before the ResPQ answer or the stall: a
+	// server that still answers a previous connection attempt.
+	Stale404 int
+	// ForceA, if set, is used as the server's DH secret instead of a drawn one.
+	ForceA *big.Int
+	// GB is the client's g_b as received (set after step 3).
+	GB *big.Int
 
 	mu          sync.Mutex
 	ReqAt       [4]time.Time // arrival time of the client's request for reply N
@@ -237,6 +245,13 @@ func (s *ExServer) Run() error {
 	for _, f := range fps {
 		res = append(res, le64(f)...)
 	}
+	for i := 0; i < s.Stale404; i++ {
+		frame := binary.LittleEndian.AppendUint32(nil, 4)
+		frame = binary.LittleEndian.AppendUint32(frame, uint32(0xffffffff-404+1))
+		if _, err := s.Conn.Write(frame); err != nil {
+			return s.fail(err)
+		}
+	}
 	if stalled, err := s.reply(1, res); stalled || err != nil {
 		return s.fail(err)
 	}
@@ -334,6 +349,9 @@ func (s *ExServer) Run() error {
 		g, s.Applied = -1, true
 	}
 	a := new(big.Int).SetBytes(s.Rnd.Bytes(256))
+	if s.ForceA != nil {
+		a = new(big.Int).Set(s.ForceA)
+	}
 	ga := new(big.Int).Exp(big.NewInt(int64(g)), a, prime)
 	margin := new(big.Int).Lsh(big.NewInt(1), 2048-64)
 	pm := new(big.Int).Sub(prime, margin)
@@ -440,6 +458,7 @@ func (s *ExServer) Run() error {
 		return s.fail(err)
 	}
 	gb := new(big.Int).SetBytes(gbBytes)
+	s.GB = gb
 	var key [256]byte
 	if gaKnown && prime.Sign() > 0 {
 		new(big.Int).Exp(gb, a, prime).FillBytes(key[:])
